@@ -32,6 +32,52 @@
 //     (watchdog).
 //
 // Span limits are set to unlimited so that drops do not blur atomicity.
+//
+// Dimensions added in round 8:
+//
+//   - TIME. Every shared span draws its start (explicit instants from 1906 to
+//     2191: before the epoch, the epoch, the past, the future; or the wall
+//     clock with its monotonic reading) and every End(WithTimestamp) draws its
+//     end as a signed offset from that start (before it, exactly at it, a
+//     nanosecond around it, log-scale up to ten years on either side). "A
+//     single end time" is read as: (a) the exported end time is the one some
+//     End call supplied - one of the explicit timestamps, or, when a plain End
+//     took part, possibly a reading of the clock taken during the run (judged
+//     with an hour of slack on either side, the interesting errors are years
+//     off); (b) every processor sees that end time; (c) the span itself (the
+//     ReadWriteSpan a processor kept from OnStart, read inside OnEnd, and
+//     span.(ReadOnlySpan) read when everything is over) reports that very end
+//     time too. Both sub-checks.
+//   - the snapshot fingerprint also covers start time, kind, parent, span
+//     context, dropped counts, scope and the events' times.
+//   - op read: every getter of the span (except Attributes, see KF below) runs
+//     concurrently with the mutators and End; op isrec is judged (false once
+//     an End call has returned); op endpanic: End called while panicking
+//     (deferred), with and without WithStackTrace: its exception event is all
+//     or nothing, at most once, absent after an End had returned. Whether a
+//     losing End's event is kept, and that the panic continues, is documented
+//     behaviour of End but not part of this property: class labels only.
+//   - ReEnd: a registered processor whose OnEnd calls back into the span being
+//     ended (End again, mutators, child Start) and into the provider.
+//   - child ops with trace.WithNewRoot(): such a span has no parent, it must
+//     not be counted ("child counts are exact"; ChildSpanCount is documented
+//     as "the count of spans that consider the span a direct parent").
+//
+// Defects of the pinned tree met by these dimensions:
+//
+//   - repaired (/repo 53f7114, regression replay
+//     replays/regress/C10/new_root_counted_as_child.json): tracer.Start bumped
+//     the child counter of the span found in the context before it looked at
+//     WithNewRoot; violation kind child_count_includes_new_root.
+//   - outside the quantified domain (the quantifier lists End, SetAttributes,
+//     AddEvent, AddLink, SetStatus, SetName, RecordError, IsRecording and
+//     child Start, not the ReadOnlySpan getters), observed only:
+//     recordingSpan.Attributes() de-duplicates in place, i.e. re-writes the
+//     array the exported snapshot shares with identical values while
+//     processors read the snapshot - a race report without any observable
+//     effect. A race report stops the run, so op read calls Attributes() only
+//     when Op.C == 1, which the generator does not draw;
+//     testdata/attributes-getter-race.json replays it.
 package c10
 
 import (
@@ -60,11 +106,12 @@ import (
 
 // Op is one step of one goroutine.
 type Op struct {
-	K  string `json:"k"`            // end endts attrs event link error status name isrec child tracer regproc unregproc flush
+	K  string `json:"k"`            // endpanic read end endts attrs event link error status name isrec child tracer regproc unregproc flush
 	S  int    `json:"s"`            // span index
 	N  int    `json:"n,omitempty"`  // number of attributes (attrs/event/link)
 	P  int    `json:"p,omitempty"`  // perturbation before the op
-	TS int64  `json:"ts,omitempty"` // endts: offset in ms after the span's start time
+	TS int64  `json:"ts,omitempty"` // endts: offset in ms relative to the span's start time (signed: an end time may lie before the start)
+	NS int64  `json:"ns,omitempty"` // endts: further offset in ns (added to TS)
 	C  int    `json:"c,omitempty"`  // status: code 1 Error, 2 Ok; child: 1 = the sampler drops this child, 2 = record-only child
 }
 
@@ -87,6 +134,64 @@ type Case struct {
 	// sink that calls back into the TracerProvider on every log line - a
 	// collaborator the SDK calls, like exporters and processors.
 	ReLogger bool `json:"re_logger,omitempty"`
+	// StartAt: per shared span the explicit start timestamp in Unix
+	// nanoseconds (anywhere between 1906 and 2191: before the epoch, the epoch
+	// itself, the past, the future); absent = the fixed 2023 instants of the
+	// first version of this check. StartWall: bit i set = span i is started
+	// without a timestamp (wall clock, with a monotonic reading).
+	StartAt   []int64 `json:"start_at,omitempty"`
+	StartWall int     `json:"start_wall,omitempty"`
+	// ReEnd != 0: one more registered processor whose OnEnd calls back into
+	// the span that is being ended (the ReadWriteSpan it kept from OnStart) and
+	// into the provider. Bits: 1 End again, 2 SetAttributes+AddEvent, 4
+	// IsRecording+SetName+SetStatus, 8 start (and end) a child of it, 16
+	// ForceFlush+Tracer.
+	ReEnd int `json:"re_end,omitempty"`
+}
+
+func legacyStart(i int) int64 { return (1700000000 + int64(i)) * 1e9 }
+
+// genStart draws the start instant of span i: -1 = wall clock.
+func genStart(t *rapid.T, i int) int64 {
+	switch rapid.IntRange(0, 5).Draw(t, "start_class") {
+	case 2: // in the future: a plain End then lies before the start
+		return rapid.Int64Range(2_000_000_000_000_000_000, 7_000_000_000_000_000_000).Draw(t, "start_future")
+	case 3: // anywhere in the past, also before 1970
+		return rapid.Int64Range(-2_000_000_000_000_000_000, 1_600_000_000_000_000_000).Draw(t, "start_past")
+	case 4:
+		return rapid.SampledFrom([]int64{0, 1, -1, 1_000_000_000, 4_102_444_800_000_000_000}).Draw(t, "start_boundary")
+	case 5:
+		return -1 << 63
+	}
+	return legacyStart(i)
+}
+
+// genEndOffset draws the explicit end time of an End(WithTimestamp) as an
+// offset from the span's start: after, before, exactly at, a nanosecond
+// around, and log-scale far away (up to about ten years) on either side.
+func genEndOffset(t *rapid.T) (ms, ns int64) {
+	switch rapid.IntRange(0, 6).Draw(t, "end_class") {
+	case 2:
+		return rapid.Int64Range(-1000, -1).Draw(t, "ts_before"), 0
+	case 3:
+		return 0, rapid.SampledFrom([]int64{0, 1, -1}).Draw(t, "ns_at_start")
+	case 4:
+		e := rapid.IntRange(0, 11).Draw(t, "ts_exp")
+		v := rapid.Int64Range(1, 9).Draw(t, "ts_mant")
+		for i := 0; i < e; i++ {
+			v *= 10
+		}
+		if v > 315_000_000_000 {
+			v = 315_000_000_000
+		}
+		if rapid.Bool().Draw(t, "ts_neg") {
+			v = -v
+		}
+		return v, 0
+	case 5:
+		return rapid.Int64Range(-1000, 1000).Draw(t, "ts_around"), rapid.Int64Range(0, 999_999).Draw(t, "ns")
+	}
+	return rapid.Int64Range(1, 1000).Draw(t, "ts"), 0
 }
 
 func gen(t *rapid.T) Case {
@@ -94,12 +199,23 @@ func gen(t *rapid.T) Case {
 	c.Spans = rapid.IntRange(1, 3).Draw(t, "spans")
 	c.Processors = rapid.IntRange(1, 3).Draw(t, "processors")
 	c.Trace = rapid.Bool().Draw(t, "runtime_trace")
+	for i := 0; i < c.Spans; i++ {
+		at := genStart(t, i)
+		if at == -1<<63 {
+			c.StartWall |= 1 << i
+			at = legacyStart(i)
+		}
+		c.StartAt = append(c.StartAt, at)
+	}
 	ng := rapid.IntRange(2, 8).Draw(t, "goroutines")
-	kinds := []string{"end", "end", "end", "endts", "attrs", "attrs", "attrs", "event", "event", "link", "error", "status", "name", "isrec", "child", "child", "tracer", "regproc", "unregproc", "flush", "panicerror", "slowerror"}
+	kinds := []string{"endpanic", "read", "read", "end", "end", "end", "endts", "attrs", "attrs", "attrs", "event", "event", "link", "error", "status", "name", "isrec", "child", "child", "tracer", "regproc", "unregproc", "flush", "panicerror", "slowerror"}
 	if rapid.IntRange(0, 2).Draw(t, "rec_only_spans") == 0 {
 		c.RecOnly = rapid.IntRange(1, 1<<c.Spans-1).Draw(t, "rec_only")
 	}
 	c.ReLogger = rapid.IntRange(0, 3).Draw(t, "reentrant_logger") == 0
+	if rapid.IntRange(0, 2).Draw(t, "reentrant_on_end") == 0 {
+		c.ReEnd = rapid.IntRange(1, 31).Draw(t, "reentrant_on_end_actions")
+	}
 	if c.StartShare = rapid.IntRange(0, 2).Draw(t, "start_share") == 0; c.StartShare {
 		kinds = append(kinds, "racychild", "racychild", "racychild")
 	}
@@ -112,7 +228,7 @@ func gen(t *rapid.T) Case {
 			case "attrs", "event", "link":
 				op.N = rapid.IntRange(2, 5).Draw(t, "n")
 			case "endts":
-				op.TS = rapid.Int64Range(1, 1000).Draw(t, "ts")
+				op.TS, op.NS = genEndOffset(t)
 			case "status":
 				op.C = rapid.IntRange(1, 2).Draw(t, "code")
 			case "child":
@@ -120,6 +236,13 @@ func gen(t *rapid.T) Case {
 				// N odd: the child is started through a tracer of a SECOND
 				// TracerProvider (the shared span still is its parent)
 				op.N = rapid.SampledFrom([]int{0, 0, 0, 1}).Draw(t, "other_provider")
+				// N bit 1: started with WithNewRoot: the new span has NO parent
+				// although the shared span is in the context it is started with
+				if rapid.IntRange(0, 5).Draw(t, "new_root") == 0 {
+					op.N |= 2
+				}
+			case "endpanic":
+				op.C = rapid.IntRange(0, 1).Draw(t, "stack_trace")
 			case "racychild":
 				op.C = rapid.IntRange(0, 3).Draw(t, "sharer_action")
 			}
@@ -142,6 +265,8 @@ type snapCopy struct {
 	status    string
 	end       time.Time
 	children  int
+	// the rest of what a snapshot exposes, rendered
+	fixed string
 }
 
 func render(kvs []attribute.KeyValue) string {
@@ -167,6 +292,13 @@ func copySnap(s sdktrace.ReadOnlySpan) snapCopy {
 	}
 	st := s.Status()
 	sc.status = fmt.Sprintf("%d/%s", st.Code, st.Description)
+	var evt []string
+	for _, e := range s.Events() {
+		evt = append(evt, fmt.Sprintf("%d+%d", e.Time.UnixNano(), e.DroppedAttributeCount))
+	}
+	sc.fixed = fmt.Sprintf("start=%d kind=%d parent=%s ctx=%s/%s/%s dropped=%d/%d/%d scope=%s eventtimes=%v",
+		s.StartTime().UnixNano(), s.SpanKind(), s.Parent().SpanID(), s.SpanContext().TraceID(), s.SpanContext().SpanID(), s.SpanContext().TraceFlags(),
+		s.DroppedAttributes(), s.DroppedEvents(), s.DroppedLinks(), s.InstrumentationScope().Name, evt)
 	return sc
 }
 
@@ -200,25 +332,69 @@ func (a snapCopy) equal(b snapCopy) string {
 	if strings.Join(a.links, ";") != strings.Join(b.links, ";") {
 		return fmt.Sprintf("links %v -> %v", a.links, b.links)
 	}
+	if a.fixed != b.fixed {
+		return fmt.Sprintf("%s -> %s", a.fixed, b.fixed)
+	}
 	return ""
+}
+
+// endJudge decides whether an exported end time is "the single end time" of
+// the span: the timestamp one of the End calls supplied. offered are the
+// explicit timestamps of the End(WithTimestamp) calls made on the span; plain
+// says that some End call had no timestamp (it supplies a reading of the
+// clock taken during the run, i.e. between t0 and t1; an hour of slack on
+// either side so that no clock adjustment can matter - this is about
+// end times that are years off, not about durations).
+func endJudge(end time.Time, offered []time.Time, plain bool, t0, t1 time.Time) string {
+	for _, o := range offered {
+		if end.Equal(o) {
+			return ""
+		}
+	}
+	if !plain {
+		return fmt.Sprintf("ended at %s, which no End call supplied (every End call had an explicit timestamp: %s)", fmtT(end), fmtTs(offered))
+	}
+	if end.Before(t0.Add(-time.Hour)) || end.After(t1.Add(time.Hour)) {
+		return fmt.Sprintf("ended at %s, which is neither one of the explicit timestamps %s nor a reading of the clock during the run (%s .. %s)", fmtT(end), fmtTs(offered), fmtT(t0), fmtT(t1))
+	}
+	return ""
+}
+
+func fmtT(t time.Time) string { return t.UTC().Format("2006-01-02T15:04:05.000000000Z") }
+func fmtTs(ts []time.Time) string {
+	out := make([]string, len(ts))
+	for i, t := range ts {
+		out[i] = fmtT(t)
+	}
+	return "[" + strings.Join(out, " ") + "]"
 }
 
 type delivery struct {
 	at   int64
 	snap snapCopy
 	ro   sdktrace.ReadOnlySpan
+	// what the span itself (the ReadWriteSpan this processor kept from OnStart)
+	// reported as its end time while OnEnd ran
+	hasLive bool
+	liveEnd time.Time
 }
 
 type recProcessor struct {
-	clock *vk.Clock
-	mu    sync.Mutex
-	ends  map[trace.SpanID][]delivery
-	live  []sdktrace.ReadWriteSpan // every span seen in OnStart (kept: a processor may look at it later)
+	clock  *vk.Clock
+	mu     sync.Mutex
+	ends   map[trace.SpanID][]delivery
+	live   []sdktrace.ReadWriteSpan // every span seen in OnStart (kept: a processor may look at it later)
+	liveBy map[trace.SpanID]sdktrace.ReadWriteSpan
 }
 
 func (p *recProcessor) OnStart(_ context.Context, s sdktrace.ReadWriteSpan) {
+	id := s.SpanContext().SpanID()
 	p.mu.Lock()
 	p.live = append(p.live, s)
+	if p.liveBy == nil {
+		p.liveBy = map[trace.SpanID]sdktrace.ReadWriteSpan{}
+	}
+	p.liveBy[id] = s
 	p.mu.Unlock()
 }
 
@@ -251,6 +427,13 @@ func (p *recProcessor) inspect() {
 }
 func (p *recProcessor) OnEnd(s sdktrace.ReadOnlySpan) {
 	d := delivery{at: p.clock.Tick(), snap: copySnap(s), ro: s}
+	id := s.SpanContext().SpanID()
+	p.mu.Lock()
+	kept := p.liveBy[id]
+	p.mu.Unlock()
+	if kept != nil {
+		d.hasLive, d.liveEnd = true, kept.EndTime()
+	}
 	p.mu.Lock()
 	p.ends[s.SpanContext().SpanID()] = append(p.ends[s.SpanContext().SpanID()], d)
 	p.mu.Unlock()
@@ -264,6 +447,8 @@ type opRec struct {
 	start, end int64
 	tag        string
 	recAfter   bool         // IsRecording() observed right after the op (end ops)
+	isRec      bool         // isrec: what IsRecording() answered
+	recovered  string       // endpanic: what the caller recovered
 	child      trace.SpanID // child / racychild: the span the op started
 	// slowerror: clock instants inside the error's Error method, which the SDK
 	// calls while it holds the span's lock (0 = never called)
@@ -350,6 +535,65 @@ func (p *shareProcessor) wait(id trace.SpanID) {
 	}
 }
 
+// reProcessor is the re-entrant collaborator: its OnEnd uses the span that is
+// being ended and the provider (once per span, so that a span that is wrongly
+// delivered twice does not recurse without end).
+type reProcessor struct {
+	mode int
+	tp   *sdktrace.TracerProvider
+	mu   sync.Mutex
+	kept map[trace.SpanID]sdktrace.ReadWriteSpan
+	seen map[trace.SpanID]bool
+	n    atomic.Int64
+}
+
+func (p *reProcessor) OnStart(_ context.Context, s sdktrace.ReadWriteSpan) {
+	id := s.SpanContext().SpanID()
+	p.mu.Lock()
+	p.kept[id] = s
+	p.mu.Unlock()
+}
+
+func (p *reProcessor) OnEnd(s sdktrace.ReadOnlySpan) {
+	if strings.HasPrefix(s.Name(), "child.") {
+		return
+	}
+	id := s.SpanContext().SpanID()
+	p.mu.Lock()
+	live, again := p.kept[id], p.seen[id]
+	p.seen[id] = true
+	p.mu.Unlock()
+	if live == nil || again {
+		return
+	}
+	p.n.Add(1)
+	if p.mode&1 != 0 {
+		live.End()
+		live.End(trace.WithTimestamp(time.Unix(1, 0)))
+	}
+	if p.mode&2 != 0 {
+		live.SetAttributes(attribute.String("reentrant", "x"))
+		live.AddEvent("reentrant")
+		live.AddLink(trace.Link{SpanContext: trace.NewSpanContext(trace.SpanContextConfig{TraceID: trace.TraceID{7}, SpanID: trace.SpanID{7}})})
+	}
+	if p.mode&4 != 0 {
+		_ = live.IsRecording()
+		live.SetName("reentrant")
+		live.SetStatus(codes.Error, "reentrant")
+		live.RecordError(errors.New("reentrant"))
+	}
+	if p.mode&8 != 0 {
+		_, ch := p.tp.Tracer("c10.reentrant").Start(trace.ContextWithSpan(context.Background(), live), "child.reentrant")
+		ch.End()
+	}
+	if p.mode&16 != 0 {
+		_ = p.tp.ForceFlush(context.Background())
+		_ = p.tp.Tracer("c10.reentrant.2")
+	}
+}
+func (p *reProcessor) Shutdown(context.Context) error   { return nil }
+func (p *reProcessor) ForceFlush(context.Context) error { return nil }
+
 // nameSampler drops spans named child.drop.*, records-only child.recordonly.*
 // and samples everything else.
 type nameSampler struct{}
@@ -381,6 +625,11 @@ func runOnce(c Case) ([]vk.Violation, map[string]bool) {
 	var vs []vk.Violation
 	classes := map[string]bool{}
 	bad := func(kind, format string, a ...any) { vs = append(vs, vk.V(kind, format, a...)) }
+	mark := func(cond bool, label string) {
+		if cond {
+			classes[label] = true
+		}
+	}
 	otel.SetErrorHandler(&vk.ErrCapture{})
 
 	if c.Trace {
@@ -394,9 +643,15 @@ func runOnce(c Case) ([]vk.Violation, map[string]bool) {
 	// span's child count is about the spans that consider it their parent,
 	// whatever the sampler answered for them
 	opts := []sdktrace.TracerProviderOption{sdktrace.WithRawSpanLimits(unlimited()), sdktrace.WithSampler(nameSampler{})}
+	rep := &reProcessor{mode: c.ReEnd, kept: map[trace.SpanID]sdktrace.ReadWriteSpan{}, seen: map[trace.SpanID]bool{}}
 	for i := range procs {
 		procs[i] = &recProcessor{clock: clock, ends: map[trace.SpanID][]delivery{}}
 		opts = append(opts, sdktrace.WithSpanProcessor(procs[i]))
+		if i == 0 && c.ReEnd != 0 {
+			// between the recording processors: the first one copies the
+			// snapshot before, the others after the re-entrant calls
+			opts = append(opts, sdktrace.WithSpanProcessor(rep))
+		}
 	}
 	share := &shareProcessor{}
 	if c.StartShare {
@@ -404,6 +659,7 @@ func runOnce(c Case) ([]vk.Violation, map[string]bool) {
 	}
 	tp := sdktrace.NewTracerProvider(opts...)
 	tr := tp.Tracer("c10")
+	rep.tp = tp
 	if c.ReLogger {
 		otel.SetLogger(logr.New(&reSink{tp: tp}))
 		defer otel.SetLogger(logr.Discard())
@@ -430,9 +686,27 @@ func runOnce(c Case) ([]vk.Violation, map[string]bool) {
 	spans := make([]trace.Span, c.Spans)
 	ctxs := make([]context.Context, c.Spans)
 	starts := make([]time.Time, c.Spans)
+	t0 := time.Now()
 	for i := range spans {
-		starts[i] = time.Unix(1700000000+int64(i), 0)
+		at := legacyStart(i)
+		if i < len(c.StartAt) {
+			at = c.StartAt[i]
+		}
+		if c.StartWall>>i&1 == 1 {
+			ctxs[i], spans[i] = tr.Start(context.Background(), spanName(c, i))
+			// what the span says its start is (without the monotonic reading:
+			// explicit end timestamps are plain wall clock instants)
+			starts[i] = spans[i].(sdktrace.ReadOnlySpan).StartTime().Round(0)
+			classes["span_started_by_the_wall_clock"] = true
+			continue
+		}
+		starts[i] = time.Unix(0, at)
 		ctxs[i], spans[i] = tr.Start(context.Background(), spanName(c, i), trace.WithTimestamp(starts[i]))
+		mark(starts[i].After(t0), "span_start_in_the_future")
+		mark(at < 0, "span_start_before_1970")
+	}
+	endAt := func(op Op) time.Time {
+		return starts[op.S].Add(time.Duration(op.TS)*time.Millisecond + time.Duration(op.NS))
 	}
 
 	var rmu sync.Mutex
@@ -455,7 +729,7 @@ func runOnce(c Case) ([]vk.Violation, map[string]bool) {
 				sp.End()
 				r.recAfter = sp.IsRecording()
 			case "endts":
-				sp.End(trace.WithTimestamp(starts[op.S].Add(time.Duration(op.TS) * time.Millisecond)))
+				sp.End(trace.WithTimestamp(endAt(op)))
 				r.recAfter = sp.IsRecording()
 			case "attrs":
 				sp.SetAttributes(kvs(op.N)...)
@@ -481,14 +755,47 @@ func runOnce(c Case) ([]vk.Violation, map[string]bool) {
 				sp.SetStatus(codes.Code(op.C), "st."+r.tag)
 			case "name":
 				sp.SetName("nm." + r.tag)
+			case "endpanic":
+				// End while panicking (deferred): End adds an exception event,
+				// ends the span and lets the panic go on
+				func() {
+					defer func() { r.recovered = fmt.Sprint(recover()) }()
+					if op.C == 1 {
+						defer sp.End(trace.WithStackTrace(true))
+					} else {
+						defer sp.End()
+					}
+					panic("pn." + r.tag)
+				}()
+				r.recAfter = sp.IsRecording()
+			case "read":
+				// every getter of the span, while the others mutate and end it
+				ro := sp.(sdktrace.ReadOnlySpan)
+				_, _, _, _ = ro.Name(), ro.Events(), ro.Links(), ro.Status()
+				if op.C == 1 {
+					// NOT drawn by the generator at present (attributes-getter-
+					// writes-exported-array: the getter de-duplicates in place, i.e.
+					// writes to the array the exported snapshot shares, while a
+					// processor reads that snapshot: a data race, which stops the
+					// whole run, the race detector cannot be told about known races);
+					// testdata/attributes-getter-race.json replays it
+					_ = ro.Attributes()
+				}
+				_, _, _, _, _ = ro.StartTime(), ro.EndTime(), ro.SpanKind(), ro.Parent(), ro.SpanContext()
+				_, _, _, _ = ro.DroppedAttributes(), ro.DroppedEvents(), ro.DroppedLinks(), ro.ChildSpanCount()
+				_, _, _ = ro.Resource(), ro.InstrumentationScope(), sp.TracerProvider()
 			case "isrec":
-				_ = sp.IsRecording()
+				r.isRec = sp.IsRecording()
 			case "child":
 				ctr := tr
 				if op.N%2 == 1 {
 					ctr = tr2
 				}
-				_, ch := ctr.Start(ctxs[op.S], [...]string{"child.", "child.drop.", "child.recordonly."}[op.C%3]+r.tag)
+				var so []trace.SpanStartOption
+				if op.N&2 != 0 {
+					so = append(so, trace.WithNewRoot(), trace.WithAttributes(attribute.String("k", "v")), trace.WithLinks(trace.Link{SpanContext: sp.SpanContext()}))
+				}
+				_, ch := ctr.Start(ctxs[op.S], [...]string{"child.", "child.drop.", "child.recordonly."}[op.C%3]+r.tag, so...)
 				r.end = clock.Tick() // Start returned
 				r.child = ch.SpanContext().SpanID()
 				ch.End()
@@ -534,6 +841,7 @@ func runOnce(c Case) ([]vk.Violation, map[string]bool) {
 			rmu.Unlock()
 		}
 	})
+	t1 := time.Now()
 	_ = tp.Shutdown(context.Background())
 	// processors that kept the spans they saw in OnStart look at them now
 	for _, p := range procs {
@@ -547,14 +855,25 @@ func runOnce(c Case) ([]vk.Violation, map[string]bool) {
 	firstEndReturn := make([]int64, c.Spans)
 	lastEndReturn := make([]int64, c.Spans) // by then the End call that delivered the span has returned too
 	enders := make([]int, c.Spans)
-	endTimes := make([]map[int64]bool, c.Spans) // explicit timestamps offered
+	endTimes := make([][]time.Time, c.Spans) // explicit timestamps offered
 	plainEnd := make([]bool, c.Spans)
 	for i := range firstEndIssue {
 		firstEndIssue[i], firstEndReturn[i] = never, never
-		endTimes[i] = map[int64]bool{}
+	}
+	firstEndReturnOf := func(s int) int64 {
+		m := never
+		for _, r := range recs {
+			if (r.op.K == "end" || r.op.K == "endts" || r.op.K == "endpanic") && r.op.S == s && r.end < m {
+				m = r.end
+			}
+		}
+		return m
 	}
 	for _, r := range recs {
-		if r.op.K == "end" || r.op.K == "endts" {
+		if r.op.K == "isrec" && r.isRec && r.start > firstEndReturnOf(r.op.S) {
+			bad("recording_after_end", "span %d: IsRecording() issued at t=%d answered true although an End call had returned at t=%d", r.op.S, r.start, firstEndReturnOf(r.op.S))
+		}
+		if r.op.K == "end" || r.op.K == "endts" || r.op.K == "endpanic" {
 			s := r.op.S
 			enders[s]++
 			if r.start < firstEndIssue[s] {
@@ -567,7 +886,11 @@ func runOnce(c Case) ([]vk.Violation, map[string]bool) {
 				lastEndReturn[s] = r.end
 			}
 			if r.op.K == "endts" {
-				endTimes[s][r.op.TS] = true
+				endTimes[s] = append(endTimes[s], endAt(r.op))
+				off := endAt(r.op).Sub(starts[s])
+				mark(off < 0, "End_with_a_timestamp_before_the_start")
+				mark(off == 0, "End_with_a_timestamp_equal_to_the_start")
+				mark(off > 24*time.Hour || off < -24*time.Hour, "End_with_a_timestamp_over_a_day_from_the_start")
 			} else {
 				plainEnd[s] = true
 			}
@@ -603,6 +926,11 @@ func runOnce(c Case) ([]vk.Violation, map[string]bool) {
 				// the exported snapshot never changes afterwards
 				if diff := d.snap.equal(copySnap(d.ro)); diff != "" {
 					bad("snapshot_changed", "span %d: the snapshot handed to processor %d changed after OnEnd: %s", s, pi, diff)
+				}
+				// a single end time: the span a processor kept from OnStart
+				// reports the end time the exported snapshot carries
+				if d.hasLive && !d.liveEnd.Equal(d.snap.end) {
+					bad("two_end_times", "span %d (start %s): the snapshot handed to processor %d ends at %s, but the span itself (the ReadWriteSpan the processor kept from OnStart) reported EndTime() %s while OnEnd ran", s, fmtT(starts[s]), pi, fmtT(d.snap.end), fmtT(d.liveEnd))
 				}
 			}
 		}
@@ -652,16 +980,20 @@ func runOnce(c Case) ([]vk.Violation, map[string]bool) {
 			continue
 		}
 		snap := ref.snap
-		// end time: one of the offered ones
-		if off := snap.end.Sub(starts[s]).Milliseconds(); !endTimes[s][off] || snap.end.Sub(starts[s]) != time.Duration(off)*time.Millisecond {
-			if !plainEnd[s] {
-				bad("end_time_invented", "span %d ended at %v which no End call supplied", s, snap.end)
-			} else if snap.end.Before(starts[s]) {
-				bad("end_time_before_start", "span %d ended at %v before its start %v", s, snap.end, starts[s])
-			}
+		// a single end time: the one that one of the End calls supplied ...
+		if why := endJudge(snap.end, endTimes[s], plainEnd[s], t0, t1); why != "" {
+			bad("end_time_invented", "span %d (start %s) %s", s, fmtT(starts[s]), why)
+		}
+		// ... which is also what the span itself reports from then on
+		if live := spans[s].(sdktrace.ReadOnlySpan).EndTime(); !live.Equal(snap.end) {
+			bad("two_end_times", "span %d (start %s): the exported snapshot ends at %s, but the span itself reports EndTime() %s after every goroutine has finished", s, fmtT(starts[s]), fmtT(snap.end), fmtT(live))
+		}
+		if snap.end.Before(starts[s]) {
+			classes["exported_end_time_before_the_start"] = true
 		}
 		// mutations
 		childLo, childHi := 0, 0
+		rootLo, rootHi := 0, 0 // new-root spans started with the shared span in the context
 		names := map[string]bool{spanName(c, s): true}
 		statuses := map[string]bool{"0/": true}
 		for _, r := range recs {
@@ -719,6 +1051,34 @@ func runOnce(c Case) ([]vk.Violation, map[string]bool) {
 				if partial && present == 0 {
 					bad("mutation_torn", "span %d: %s %s is only partly present in the snapshot: %v", s, r.op.K, r.tag, list)
 				}
+			case "endpanic":
+				// the exception event End adds when it is called while panicking
+				total = 1
+				for _, e := range snap.events {
+					if !strings.Contains(e, "pn."+r.tag) {
+						continue
+					}
+					if strings.HasPrefix(e, "exception#") && strings.Contains(e, "exception.message=pn."+r.tag+"|") && strings.Contains(e, "exception.type=") &&
+						(r.op.C != 1 || strings.Contains(e, "exception.stacktrace=")) {
+						present++
+					} else {
+						bad("mutation_torn", "span %d: the exception event of End-while-panicking %s is only partly present in the snapshot: %q", s, r.tag, e)
+					}
+				}
+				if present > 1 {
+					bad("mutation_applied_twice", "span %d: the exception event of End-while-panicking %s appears %d times in the snapshot", s, r.tag, present)
+					present = 1
+				}
+				classes["End_while_panicking"] = true
+				mark(present == 1, "End_while_panicking_left_its_exception_event")
+				mark(r.recovered == "pn."+r.tag, "End_while_panicking_let_the_panic_continue")
+				// whether the event of an End call that did not win is kept is
+				// not for this property to say; after an End has returned it
+				// must be absent like any other mutation
+				if r.start > firstEndReturn[s] && present != 0 {
+					bad("mutation_after_end", "span %d: End-while-panicking %s was issued (t=%d) after an End had returned (t=%d) but its exception event is in the snapshot", s, r.tag, r.start, firstEndReturn[s])
+				}
+				continue
 			case "name":
 				names["nm."+r.tag] = true
 				continue
@@ -730,6 +1090,17 @@ func runOnce(c Case) ([]vk.Violation, map[string]bool) {
 				}
 				continue
 			case "child", "racychild":
+				if r.op.K == "child" && r.op.N&2 != 0 {
+					// WithNewRoot: the new span has no parent, it is nobody's child
+					if r.end < firstEndIssue[s] {
+						rootLo++
+					}
+					if r.start < firstEndReturn[s] {
+						rootHi++
+					}
+					classes["new_root_span_started_from_the_shared_span's_context"] = true
+					continue
+				}
 				if r.end < firstEndIssue[s] {
 					childLo++
 				}
@@ -758,7 +1129,9 @@ func runOnce(c Case) ([]vk.Violation, map[string]bool) {
 		if !statuses[snap.status] {
 			bad("status_invented", "span %d exported with status %q which nobody set", s, snap.status)
 		}
-		if snap.children < childLo || snap.children > childHi {
+		if snap.children > childHi && rootHi > 0 && snap.children <= childHi+rootHi && snap.children >= childLo+rootLo {
+			bad("child_count_includes_new_root", "span %d: ChildSpanCount %d, but only %d..%d children were started before the end; %d..%d further spans were started WITH trace.WithNewRoot() from a context holding span %d: they have no parent (Parent() is invalid, new trace ID) yet were counted as its children", s, snap.children, childLo, childHi, rootLo, rootHi, s)
+		} else if snap.children < childLo || snap.children > childHi {
 			bad("child_count", "span %d: ChildSpanCount %d, but %d children were started before the first End was issued and %d before the first End returned", s, snap.children, childLo, childHi)
 		}
 		if childHi > 0 {
@@ -841,16 +1214,18 @@ func run(c Case) ([]vk.Violation, vk.Info) {
 	}
 	info.ClassIf(c.Trace, "runtime_trace_enabled")
 	info.ClassIf(c.Processors > 1, "several_processors")
+	info.ClassIf(c.ReEnd != 0, "processor_OnEnd_calls_back_into_the_span_and_provider")
 	return vs, info
 }
 
 func TestSpanConcurrent(t *testing.T) {
 	vk.Run(t, vk.Spec[Case]{
 		Property: "C10", Check: "span_concurrent",
-		Rule: "2..8 goroutines applying generated sequences of End / End(WithTimestamp) / tagged SetAttributes batches / AddEvent / AddLink / RecordError / SetStatus / SetName / IsRecording / child Start / Tracer / Register+UnregisterSpanProcessor / ForceFlush to 1..3 shared spans with 1..3 recording processors, runtime/trace on or off, each program run 3 times under -race; " +
+		Rule: "2..8 goroutines applying generated sequences of End / End(WithTimestamp: signed offsets from before to after the start) / End while panicking / all getters / tagged SetAttributes batches / AddEvent / AddLink / RecordError / SetStatus / SetName / IsRecording / child Start / Tracer / Register+UnregisterSpanProcessor / ForceFlush to 1..3 shared spans (start: explicit past, pre-1970, future, or wall clock) with 1..3 recording processors and optionally a processor whose OnEnd re-enters the span and the provider, children also with WithNewRoot, runtime/trace on or off, each program run 3 times under -race; " +
 			"non-trivial = at least two goroutines call End on the same span; distinct = distinct case encodings",
 		Quick: 1500, Thorough: 20000,
 		Gen: gen, Run: run, Repeat: 300,
+		Known: map[string]func(Case, vk.Violation) bool{},
 		CaseTimeout: 60 * time.Second,
 	})
 }
@@ -872,6 +1247,13 @@ type RaceCase struct {
 	// in-place update path of a full span (the path on which a mutation that
 	// slips past End would alter the already exported snapshot).
 	AttrLimit int `json:"attr_limit,omitempty"`
+	// StartAt: explicit start of span 0 in Unix ns (span i starts i seconds
+	// later; 0 = the fixed 2023 instant); StartWall: no explicit start.
+	// TSOff: per goroutine the offset (ns, signed) of its explicit end
+	// timestamp from the span's start (absent = (g+1) seconds).
+	StartAt   int64   `json:"start_at,omitempty"`
+	StartWall bool    `json:"start_wall,omitempty"`
+	TSOff     []int64 `json:"ts_off,omitempty"`
 }
 
 func genRace(t *rapid.T) RaceCase {
@@ -885,6 +1267,15 @@ func genRace(t *rapid.T) RaceCase {
 	c.Mutators = rapid.IntRange(0, 2).Draw(t, "mutators")
 	if c.Mutators > 0 {
 		c.AttrLimit = rapid.SampledFrom([]int{0, 1, 2, 3}).Draw(t, "attr_limit")
+	}
+	if at := genStart(t, 0); at == -1<<63 {
+		c.StartWall = true
+	} else if at != legacyStart(0) {
+		c.StartAt = at
+	}
+	for g := 0; g < c.Goroutines; g++ {
+		ms, ns := genEndOffset(t)
+		c.TSOff = append(c.TSOff, ms*1_000_000+ns)
 	}
 	return c
 }
@@ -914,9 +1305,18 @@ func runRace(c RaceCase) ([]vk.Violation, vk.Info) {
 	tr := tp.Tracer("c10")
 	spans := make([]trace.Span, c.Spans)
 	starts := make([]time.Time, c.Spans)
+	t0 := time.Now()
 	for i := range spans {
-		starts[i] = time.Unix(1700000000+int64(i), 0)
-		_, spans[i] = tr.Start(context.Background(), "s", trace.WithTimestamp(starts[i]))
+		if c.StartWall {
+			_, spans[i] = tr.Start(context.Background(), "s")
+			starts[i] = spans[i].(sdktrace.ReadOnlySpan).StartTime().Round(0)
+		} else {
+			starts[i] = time.Unix(0, legacyStart(i))
+			if c.StartAt != 0 {
+				starts[i] = time.Unix(0, c.StartAt).Add(time.Duration(i) * time.Second)
+			}
+			_, spans[i] = tr.Start(context.Background(), "s", trace.WithTimestamp(starts[i]))
+		}
 		if c.AttrLimit > 0 {
 			spans[i].SetAttributes(attribute.Int("m", -1), attribute.Int("i", -1), attribute.Int("x", -1))
 		}
@@ -939,6 +1339,20 @@ func runRace(c RaceCase) ([]vk.Violation, vk.Info) {
 			}
 		}(m)
 	}
+	tsOff := func(g int) time.Duration {
+		if g < len(c.TSOff) {
+			return time.Duration(c.TSOff[g])
+		}
+		return time.Duration(g+1) * time.Second
+	}
+	plain, beforeStart := false, false
+	for g := 0; g < c.Goroutines; g++ {
+		if c.WithTS[g] != 1 {
+			plain = true
+		} else if tsOff(g) < 0 {
+			beforeStart = true
+		}
+	}
 	vk.Parallel(c.Goroutines, func(g int) {
 		for i := range spans {
 			arrived[i].Add(1)
@@ -947,7 +1361,7 @@ func runRace(c RaceCase) ([]vk.Violation, vk.Info) {
 			}
 			vk.Perturb(c.Perturb[g])
 			if c.WithTS[g] == 1 {
-				spans[i].End(trace.WithTimestamp(starts[i].Add(time.Duration(g+1) * time.Second)))
+				spans[i].End(trace.WithTimestamp(starts[i].Add(tsOff(g))))
 			} else {
 				spans[i].End()
 			}
@@ -958,6 +1372,7 @@ func runRace(c RaceCase) ([]vk.Violation, vk.Info) {
 	})
 	stop.Store(true)
 	mwg.Wait()
+	t1 := time.Now()
 	_ = tp.Shutdown(context.Background())
 	if n := stillRecording.Load(); n > 0 {
 		bad("recording_after_end", "IsRecording() was true %d time(s) right after End returned", n)
@@ -982,9 +1397,33 @@ func runRace(c RaceCase) ([]vk.Violation, vk.Info) {
 				if diff := d.snap.equal(copySnap(d.ro)); diff != "" {
 					bad("snapshot_changed", "span %d: the snapshot handed to processor %d changed after OnEnd: %s", i, pi, diff)
 				}
+				if d.hasLive && !d.liveEnd.Equal(d.snap.end) {
+					bad("two_end_times", "span %d (start %s): the snapshot handed to processor %d ends at %s, but the span itself (the ReadWriteSpan the processor kept from OnStart) reported EndTime() %s while OnEnd ran", i, fmtT(starts[i]), pi, fmtT(d.snap.end), fmtT(d.liveEnd))
+				}
 			}
 		}
+		if first == nil {
+			continue
+		}
+		// a single end time: the one that one of the racing End calls supplied,
+		// which is also what the span itself reports afterwards
+		var offered []time.Time
+		for g := 0; g < c.Goroutines; g++ {
+			if c.WithTS[g] == 1 {
+				offered = append(offered, starts[i].Add(tsOff(g)))
+			}
+		}
+		if why := endJudge(first.snap.end, offered, plain, t0, t1); why != "" {
+			bad("end_time_invented", "span %d (start %s) %s", i, fmtT(starts[i]), why)
+		}
+		if live := sp.(sdktrace.ReadOnlySpan).EndTime(); !live.Equal(first.snap.end) {
+			bad("two_end_times", "span %d (start %s): the exported snapshot ends at %s, but the span itself reports EndTime() %s after every goroutine has finished", i, fmtT(starts[i]), fmtT(first.snap.end), fmtT(live))
+		}
 	}
+	info.ClassIf(c.StartWall, "spans_started_by_the_wall_clock")
+	info.ClassIf(!c.StartWall && starts[0].After(t0), "span_start_in_the_future")
+	info.ClassIf(beforeStart, "End_with_a_timestamp_before_the_start")
+	info.ClassIf(!plain, "every_End_has_an_explicit_timestamp")
 	info.NonTrivial = true
 	info.ClassIf(c.Trace, "runtime_trace_enabled")
 	info.ClassIf(c.Mutators > 0, "concurrent_mutators")
@@ -996,7 +1435,7 @@ func runRace(c RaceCase) ([]vk.Violation, vk.Info) {
 func TestEndRace(t *testing.T) {
 	vk.Run(t, vk.Spec[RaceCase]{
 		Property: "C10", Check: "end_race",
-		Rule:  "G=2..6 goroutines all call End (plain or with a goroutine-specific timestamp) on each of N=20..60 shared spans, released together span by span through a spin barrier, 0..2 goroutines mutating the spans meanwhile, runtime/trace mostly on; every case is non-trivial (N G-way End races); distinct = distinct parameter tuples",
+		Rule:  "G=2..6 goroutines all call End (plain or with a goroutine-specific timestamp: signed offset from the start, which is explicit past/future or the wall clock) on each of N=20..60 shared spans, released together span by span through a spin barrier, 0..2 goroutines mutating the spans meanwhile, runtime/trace mostly on; every case is non-trivial (N G-way End races); distinct = distinct parameter tuples",
 		Quick: 250, Thorough: 4000,
 		Gen: genRace, Run: runRace, Repeat: 200,
 		CaseTimeout: 60 * time.Second,
